@@ -206,6 +206,9 @@ class Pbox(NominalValueMixin, ABC):
         if (not is_increasing(self.left)) or (not is_increasing(self.right)):
             raise Exception("Left and right arrays must be increasing")
 
+        if np.any(np.asarray(self.left) > np.asarray(self.right)):
+            raise ValueError("Left bound exceeds the right bound at some probability levels")
+
         # pass along moments information
         if (self.mean is None) or (self.var is None):
             self._init_moments()
